@@ -1,4 +1,4 @@
-from ...utils.bitfun import wrap_negative, BitView
+from ...utils.bitfun import wrap_signed, BitView
 from ..encoding import Relocation
 from .tokens import RiscvToken, RiscvcToken
 
@@ -18,7 +18,7 @@ class CBImm11Relocation(CRel):
         assert reloc_value % 2 == 0
         offset = sym_value - reloc_value
         bv = BitView(data, 0, 4)
-        rel20 = wrap_negative(offset >> 1, 20)
+        rel20 = wrap_signed(offset >> 1, 20)
         bv[21:31] = rel20 & 0x3FF
         bv[20:21] = rel20 >> 10 & 0x1
         bv[12:20] = rel20 >> 11 & 0xFF
@@ -61,7 +61,7 @@ class CBlImm11Relocation(CRel):
         assert reloc_value % 2 == 0
         offset = sym_value - reloc_value
         bv = BitView(data, 0, 4)
-        rel20 = wrap_negative(offset >> 1, 20)
+        rel20 = wrap_signed(offset >> 1, 20)
         bv[21:31] = rel20 & 0x3FF
         bv[20:21] = rel20 >> 10 & 0x1
         bv[12:20] = rel20 >> 11 & 0xFF
@@ -94,7 +94,7 @@ class BcImm11Relocation(CRel):
         assert sym_value % 2 == 0
         assert reloc_value % 2 == 0
         offset = sym_value - reloc_value
-        rel11 = wrap_negative(offset >> 1, 11)
+        rel11 = wrap_signed(offset >> 1, 11)
         bv = BitView(data, 0, 4)
         apply_cool_mapping(bv, rel11)
         return data
@@ -108,7 +108,7 @@ class BcImm8Relocation(CRel):
         assert sym_value % 2 == 0
         assert reloc_value % 2 == 0
         offset = sym_value - reloc_value
-        rel8 = wrap_negative(offset >> 1, 8)
+        rel8 = wrap_signed(offset >> 1, 8)
         bv = BitView(data, 0, 4)
         bv[2:3] = rel8 >> 4 & 0x1
         bv[3:5] = rel8 & 0x3
